@@ -13,14 +13,31 @@ from .translate.registry import FACTS
 
 CANARY = "verif_canary_dyn_%d"
 PROTOCOLS = [2, 2, 2, 2, 1, 0, 3, -1, "2", 2.0, True, None, 1.0]
+# real, importable names that are not default-trusted.  The instrumented runner refuses to hand out the objects
+# behind the general-purpose ones (see ioarch.Recorder.block), so nothing of this list is ever called.
 UNTRUSTED_REAL = [("os", "system"), ("builtins", "eval"), ("builtins", "exec"), ("subprocess", "Popen"),
                   ("collections", "OrderedDict"), ("operator", "methodcaller"), ("operator", "attrgetter"),
                   ("functools", "partial"), ("numpy", "save"), ("numpy.random", "seed"), ("pathlib", "Path"),
                   ("builtins", "getattr"), ("importlib", "import_module"), ("colorsys", "rgb_to_hsv"), ("fractions", "Fraction")]
 
 
+BASELINE = FACTS.parent.parent / "harness" / "facts_baseline.json"
+
+
 def facts():
-    return json.loads(FACTS.read_text())
+    """facts of the current tree; where the translator could not understand a slot (shape `unknown`) the layout
+    recorded when the model was written (facts_baseline.json, committed) is used for *generation*, so that a
+    change that confuses the translator does not also blind the generator"""
+    cur = json.loads(FACTS.read_text())
+    if BASELINE.exists():
+        base = {(k["loader"], k["protocol"]): k for k in json.loads(BASELINE.read_text())["kinds"]}
+        for k in cur["kinds"]:
+            bad = any(s.get("shape") == "unknown" for v in (k.get("variants") or []) for s in (v.get("slots") or [])) \
+                or any(v.get("slots") is None for v in (k.get("variants") or []))
+            b = base.get((k["loader"], k["protocol"]))
+            if bad and b:
+                k["variants"] = b["variants"]
+    return cur
 
 
 class Gen:
@@ -67,7 +84,10 @@ class Gen:
             return m, c
         if r < prefer_trusted + 0.25:
             self.ncanary += 1
-            return CANARY % self.ncanary, rng.choice(["Boom", "boom", "intx", "list", "absolute"])
+            mod = CANARY % self.ncanary
+            if rng.random() < 0.3:
+                mod += rng.choice([".sub", ".a.b"])       # dotted: looking the name up imports the parent package
+            return mod, rng.choice(["Boom", "boom", "intx", "list", "absolute"])
         if r < prefer_trusted + 0.36:
             return rng.choice(UNTRUSTED_REAL)
         if r < prefer_trusted + 0.39:
@@ -136,8 +156,8 @@ class Gen:
         k = force_kind or rng.choice(self.cur if rng.random() < 0.85 else self.kinds)
         m, c = self.name_for(k, trusted_bias)
         st = {"__class__": c, "__module__": m, "__loader__": k["loader"]}
-        if rng.random() < 0.03:
-            st["__loader__"] = rng.choice(["NoSuchNode", "", 5, None, "ListNode "])
+        if rng.random() < 0.06:
+            st["__loader__"] = rng.choice(["NoSuchNode", "", 5, None, "ListNode ", "NoSuchNode"])
         i = self.gen_id(list(ancestors))
         if not (isinstance(i, str) and i == "MISSING"):
             st["__id__"] = i
@@ -239,6 +259,10 @@ class Gen:
     def raw_for(self, k, s):
         rng = self.rng
         loader = k["loader"]
+        if loader != "MethodNode" and rng.random() < 0.15:
+            # a full node state where the loader expects plain data: inert today (kept as a dict), but a loader
+            # that starts to build such values must also audit them
+            return self.state(3, (), trusted_bias=0.0)
         if loader == "SliceNode":
             return rng.choice([None, 0, 1, 5, -1, "x"])
         if loader == "MethodNode":
